@@ -1,4 +1,4 @@
-SPECIFICATION Spec
+SPECIFICATION LifeSpec
 CONSTANTS
   MaxAlerts = 2
   NWrites = 0
@@ -6,5 +6,6 @@ CONSTANTS
   SizedOutsideLock = FALSE
   ShutdownInline = FALSE
   ClientGuarded = TRUE
-  Part = "informer"
-INVARIANTS NoNilUse
+  Part = "lifecycle"
+INVARIANTS NoSelfWait
+PROPERTIES EventuallyStopped
